@@ -337,6 +337,14 @@ def noninterference(prop, tier, seed, cov, log):
 
 # ------------------------------------------------------------------ C08: the real server over real sockets
 
+WIRE_PLANS = {
+    'C08': {'malformed': (3, 30), 'fields': (3, 40), 'burst': (6, 120), 'abrupt': (3, 30), 'stall-silent': (2, 10),
+            'stall-chatty': (2, 10), 'idle': (2, 8)},
+    # C02, order clause: a recipient catching up on a backlog still gets one sender's relays in order, each once
+    'C02': {'order': (2, 12)},
+}
+
+
 def wire_harness(prop, tier, seed, cov, log):
     """C08: websocket.Handle with the production decorators, real sockets, goroutines and timers, against scripted
     client misbehaviour (go/cmd/wire).  Each scenario run starts its own server and checks at the end that every
@@ -344,8 +352,7 @@ def wire_harness(prop, tier, seed, cov, log):
     witnesses in the same and in another session were served throughout."""
     import concurrent.futures as cf
     quick = tier == 'quick'
-    plan = {'malformed': (3, 30), 'fields': (3, 40), 'burst': (6, 120), 'abrupt': (3, 30), 'stall-silent': (2, 10),
-            'stall-chatty': (2, 10), 'idle': (2, 8)}
+    plan = WIRE_PLANS[prop]
     jobs = []
     for sc, (nq, nt) in plan.items():
         n = nq if quick else nt
